@@ -1,7 +1,9 @@
 #!/venv/bin/python
-"""Evaluate independently seeded changes: for /tmp/wt-<PID>/seeded/<k>/ confirm that (a) the demo fails with the
-patch and passes without it, (b) the pinned test-suite result is unchanged with the patch, then (c) run the
-property's check(s) against the patched worktree (VERIF_REPO) and record whether it is detected.
+"""Evaluate independently seeded changes.  Source of a seed: /tmp/wt-<PID>/seeded/<k>/ (fresh from a sub-agent) or, if
+that is gone, /verif/seeded/<PID>-<k>/.  A scratch git worktree of /repo's current HEAD is created under the system
+temp directory, the patch applied there, and then: (a) the demo must fail with the patch and pass without it, (b) the
+pinned test-suite result must be unchanged with the patch, (c) the property's check(s) are run against the patched
+worktree (VERIF_REPO) and the detection is recorded in /verif/seeded/<PID>-<k>/meta.json.  The worktree is removed.
 Usage: seeded_eval.py <PID> [<PID> ...] [--tier quick|thorough] [--also Cxx,Cyy]"""
 import json
 import os
@@ -19,16 +21,28 @@ def sh(cmd, cwd=None, env=None, timeout=3600):
 
 
 def evaluate(pid, k, tier, also):
-    wt = "/tmp/wt-%s" % pid
-    sd = os.path.join(wt, "seeded", str(k))
+    sd = os.path.join("/tmp/wt-%s" % pid, "seeded", str(k))
     if not os.path.exists(os.path.join(sd, "patch.diff")):
-        return None
-    env = dict(os.environ, PYTHONPATH=wt)
-    out = {"property": pid, "k": k}
-    sh("git checkout -- .", cwd=wt)
+        sd = os.path.join(VERIF, "seeded", "%s-%d" % (pid, k))
+        if not os.path.exists(os.path.join(sd, "patch.diff")):
+            return None
+    import tempfile
+    wt = tempfile.mkdtemp(prefix="verif-seedwt-")
+    os.rmdir(wt)
     head = sh("git -C /repo rev-parse HEAD")[1].strip()
-    sh("git checkout -q --detach %s" % head, cwd=wt)          # seeds are judged on top of /repo's current HEAD
-    out["repo_head"] = head[:7]
+    rc, o = sh("git -C /repo worktree add -q --detach %s %s" % (wt, head))     # seeds are judged on top of /repo's current HEAD
+    if rc != 0:
+        return {"property": pid, "k": k, "error": "cannot create worktree: " + o[-200:]}
+    try:
+        return _evaluate_in(wt, sd, pid, k, tier, also, head)
+    finally:
+        sh("git -C /repo worktree remove --force %s" % wt)
+        shutil.rmtree(wt, ignore_errors=True)
+
+
+def _evaluate_in(wt, sd, pid, k, tier, also, head):
+    env = dict(os.environ, PYTHONPATH=wt)
+    out = {"property": pid, "k": k, "repo_head": head[:7]}
     rc, o = sh("git apply %s" % os.path.join(sd, "patch.diff"), cwd=wt)
     if rc != 0:
         out["error"] = "patch does not apply: " + o[-300:]
@@ -73,10 +87,14 @@ def main():
             sd = "/tmp/wt-%s/seeded/%d" % (pid, k)
             dst = os.path.join(VERIF, "seeded", "%s-%d" % (pid, k))
             os.makedirs(dst, exist_ok=True)
-            for f in ("patch.diff", "demo.py"):
-                shutil.copy(os.path.join(sd, f), dst)
+            if os.path.exists(os.path.join(sd, "patch.diff")):
+                for f in ("patch.diff", "demo.py"):
+                    shutil.copy(os.path.join(sd, f), dst)
+            else:
+                sd = dst
             try:
                 meta = json.load(open(os.path.join(sd, "meta.json")))
+                meta.pop("evaluation_by_main_session", None)
             except Exception:
                 meta = {}
             meta["evaluation_by_main_session"] = r
